@@ -248,13 +248,44 @@ Proof.
   destruct (Nat.leb nc (length l)); intros H; now inversion H.
 Qed.
 
-Lemma row_cells_length id x : length (row_cells (length x) (apply_fn id x)) = length x.
+(* a successful row result has exactly one cell per column, whatever the function *)
+Lemma apply_row_cells_length id nc x y : apply_row_cells id nc x = Ok y -> length y = nc.
 Proof.
-  unfold row_cells.
-  destruct id as [|[|[|[|[|[|[|[|[|[|id]]]]]]]]]]; cbn [apply_fn];
-    try (rewrite repeat_length; reflexivity); rewrite firstn_length;
-    rewrite ?rev_length, ?map_length; lia.
+  unfold apply_row_cells. destruct (apply_fn id x) as [l|l|l|l|c|];
+    try (intros H; inversion H; apply repeat_length).
+  destruct (Nat.leb nc (length l)) eqn:E; intros H; inversion H.
+  apply Nat.leb_le in E. apply firstn_length_le. exact E.
 Qed.
+(* a row result that is too short is an error (it used to be an index panic) *)
+Lemma apply_row_cells_short id nc x l : apply_fn id x = RAny l -> (length l < nc)%nat ->
+  apply_row_cells id nc x = Err.
+Proof.
+  intros E Hl. unfold apply_row_cells. rewrite E.
+  apply Nat.leb_gt in Hl. rewrite Hl. reflexivity.
+Qed.
+Lemma apply_row_cells_no_panic id nc x : apply_row_cells id nc x <> Panic.
+Proof.
+  unfold apply_row_cells. destruct (apply_fn id x); try discriminate.
+  destruct (Nat.leb nc (length l)); discriminate.
+Qed.
+
+Lemma div2_le n : (Nat.div2 n <= n)%nat.
+Proof. pose proof (Nat.div2_odd n) as H. lia. Qed.
+
+(* Every function of the menu but the shortening one (10) returns at least as many cells
+   as it receives, so its row result has one cell per column.  For function 10 it is false:
+   row_cells 2 (apply_fn 10 [CNil; CNil]) = [CNil]. *)
+Lemma row_cells_length id x : id <> 10%nat ->
+  length (row_cells (length x) (apply_fn id x)) = length x.
+Proof.
+  unfold row_cells. intros Hid.
+  destruct id as [|[|[|[|[|[|[|[|[|[|[|[|id]]]]]]]]]]]]; cbn [apply_fn];
+    try (rewrite repeat_length; reflexivity); try congruence; rewrite firstn_length;
+    rewrite ?rev_length, ?map_length, ?app_length; cbn [length]; lia.
+Qed.
+Example row_cells_length_needs_premise :
+  row_cells 2 (apply_fn 10 [CNil; CNil]) = [CNil] /\ apply_row_cells 10 2 [CNil; CNil] = Err.
+Proof. vm_compute. split; reflexivity. Qed.
 
 (* the function is applied exactly once per row, to that row's cells in sorted-column
    order: the successive arguments are map (map snd) (rows f), the i-th result is what
@@ -300,17 +331,47 @@ Proof.
   apply map_snd_combine. unfold fkeys. now rewrite map_length, transpose_length.
 Qed.
 
-Lemma apply_row_results_width id f : width (ncols f) (apply_row_results id f).
+Lemma out_all_map_each {A B} (h : A -> out B) l res :
+  out_all (map h l) = Ok res -> forall x, In x l -> exists y, h x = Ok y.
 Proof.
-  unfold width, apply_row_results, apply_args. rewrite Forall_forall. intros r Hr.
-  rewrite map_map in Hr. apply in_map_iff in Hr. destruct Hr as [r0 [E Hr0]]. subst r.
-  apply rows_length in Hr0. rewrite <- Hr0. rewrite <- (map_length snd r0). apply row_cells_length.
+  revert res. induction l as [|a l IH]; intros res H x Hin; [destruct Hin|]. cbn in H.
+  destruct (h a) as [ya| |] eqn:Ea; cbn in H; try discriminate.
+  destruct (out_all (map h l)) as [rl| |] eqn:El; cbn in H; try discriminate.
+  destruct Hin as [<-|Hin]; [exists ya; exact Ea | exact (IH rl eq_refl x Hin)].
 Qed.
 
-(* on a rectangular, non-empty frame row-wise Apply always succeeds (no error, no panic) *)
-Theorem apply_row_total id f : rect f = true -> f <> [] -> exists g, op_apply_row id f = Ok g.
+(* when the call succeeds every row result has one cell per column (a function that returns
+   too few cells makes the call an error, see apply_row_short_is_error) *)
+Lemma apply_row_results_width id f g : op_apply_row id f = Ok g ->
+  width (ncols f) (apply_row_results id f).
 Proof.
-  intros R Hne. unfold op_apply_row. cbv zeta.
+  unfold op_apply_row. cbv zeta.
+  destruct (all_some (map (frow f) (seq 0 (nrows f)))) as [rs|] eqn:E; [|discriminate].
+  apply all_rows_are_rows in E. subst rs.
+  destruct (out_all (map (fun r => apply_row_cells id (ncols f) (map snd r)) (rows f))) as [res| |] eqn:R;
+    cbn [bind]; try discriminate.
+  intros _.
+  unfold width, apply_row_results, apply_args. rewrite Forall_forall. intros r Hr.
+  rewrite map_map in Hr. apply in_map_iff in Hr. destruct Hr as [r0 [E Hr0]]. subst r.
+  destruct (out_all_map_each _ _ _ R r0 Hr0) as [y Hy]. cbn beta in Hy.
+  rewrite <- (apply_row_cells_ok _ _ _ _ Hy). exact (apply_row_cells_length _ _ _ _ Hy).
+Qed.
+(* for the functions that return enough cells the width holds without running the call *)
+Lemma apply_row_results_width_keeps id f : id <> 10%nat -> width (ncols f) (apply_row_results id f).
+Proof.
+  intros Hid.
+  unfold width, apply_row_results, apply_args. rewrite Forall_forall. intros r Hr.
+  rewrite map_map in Hr. apply in_map_iff in Hr. destruct Hr as [r0 [E Hr0]]. subst r.
+  apply rows_length in Hr0. rewrite <- Hr0. rewrite <- (map_length snd r0). apply row_cells_length. exact Hid.
+Qed.
+
+(* on a rectangular, non-empty frame row-wise Apply with a function that returns at least as
+   many cells as it receives (every function of the menu but 10) always succeeds.
+   With function 10 it is an error as soon as there is a row: apply_row_short_is_error. *)
+Theorem apply_row_total id f : id <> 10%nat -> rect f = true -> f <> [] ->
+  exists g, op_apply_row id f = Ok g.
+Proof.
+  intros Hid R Hne. unfold op_apply_row. cbv zeta.
   destruct (rect_all_rows f R) as [rs E]. rewrite E.
   assert (Hrs : forall r, In r rs -> length r = ncols f).
   { intros r Hr. destruct (all_some_map_in _ _ _ _ E Hr) as [i [_ Hi]]. eapply frow_length; eauto. }
@@ -320,13 +381,39 @@ Proof.
     - destruct IH as [res Eres]; [intros; apply Hrs; now right|]. rewrite Eres.
       assert (Hr : length (map snd r) = ncols f) by (rewrite map_length; apply Hrs; now left).
       unfold apply_row_cells.
-      pose proof (row_cells_length id (map snd r)) as L. rewrite Hr in L. unfold row_cells in L.
+      pose proof (row_cells_length id (map snd r) Hid) as L. rewrite Hr in L. unfold row_cells in L.
       destruct (apply_fn id (map snd r)); cbn; try (eexists; reflexivity).
       rewrite firstn_length in L.
       assert (Hle : Nat.leb (ncols f) (length l) = true) by (apply Nat.leb_le; lia).
       rewrite Hle. cbn. eexists; reflexivity. }
   destruct Hout as [res Eres]. rewrite Eres. cbn [bind].
   destruct f; [congruence|]. cbn [null]. eexists; reflexivity.
+Qed.
+Corollary apply_row_total_keeps id f : fn_keeps_length id = true -> rect f = true -> f <> [] ->
+  exists g, op_apply_row id f = Ok g.
+Proof.
+  intros Hk. apply apply_row_total. intros ->. discriminate Hk.
+Qed.
+
+(* the shortening function on a rectangular frame with at least one column and one row:
+   the first row's result has too few cells, the call is an error (never a panic) *)
+Theorem apply_row_short_is_error f : rect f = true -> f <> [] -> nrows f <> 0%nat ->
+  op_apply_row 10 f = Err.
+Proof.
+  intros R Hne Hn. unfold op_apply_row. cbv zeta.
+  destruct (rect_all_rows f R) as [rs E]. rewrite E.
+  destruct (nrows f) as [|n] eqn:En; [congruence|].
+  cbn [seq map all_some] in E.
+  destruct (frow f 0) as [r|] eqn:Er; [|discriminate].
+  destruct (all_some (map (frow f) (seq 1 n))) as [rs'|]; [|discriminate].
+  injection E as <-. cbn [map out_all].
+  apply frow_length in Er.
+  rewrite (apply_row_cells_short 10 (ncols f) (map snd r) _ eq_refl); [reflexivity|].
+  rewrite firstn_length, map_length, Er.
+  assert (Hc : ncols f <> 0%nat) by (destruct f; [congruence | discriminate]).
+  pose proof (Nat.div2_odd (ncols f)) as Hd.
+  destruct (ncols f) as [|[|m]] eqn:Em; [congruence | cbn; lia |].
+  pose proof (div2_le m) as Hm. cbn [Nat.div2]. lia.
 Qed.
 
 (* the link with the collector: whatever the completion order of the per-row results,
@@ -338,7 +425,7 @@ Proof.
   intros H sched P. rewrite (apply_row_columns _ _ _ H).
   replace (length (rows f)) with (length (apply_row_results id f))
     by (unfold apply_row_results, apply_args; now rewrite !map_length).
-  apply C17_any_schedule; [apply apply_row_results_width | exact P].
+  apply C17_any_schedule; [exact (apply_row_results_width id f g H) | exact P].
 Qed.
 
 Lemma rect_rows_length f : rect f = true -> length (rows f) = nrows f.
@@ -448,13 +535,21 @@ Qed.
 Lemma apply_col_empty id : op_apply_col id [] = Err.
 Proof. reflexivity. Qed.
 
-(* the menu: shapes of the column results *)
-Lemma apply_col_length id d r : apply_col id d = Ok r -> length r = length d.
+(* the menu: shapes of the column results.  Functions 10 and 11 hand back a slice of another
+   length, which column-wise Apply stores as it is (apply_col 11 [CNil] = Ok [CNil; CS s_k]);
+   the others keep the length *)
+Lemma apply_col_length id d r : fn_keeps_length id = true ->
+  apply_col id d = Ok r -> length r = length d.
 Proof.
-  unfold apply_col.
-  destruct id as [|[|[|[|[|[|[|[|[|[|id]]]]]]]]]]; cbn [apply_fn]; intros H; inversion H;
+  unfold apply_col, fn_keeps_length.
+  destruct id as [|[|[|[|[|[|[|[|[|[|[|[|id]]]]]]]]]]]]; cbn [apply_fn]; intros Hk H;
+    try discriminate; inversion H;
     rewrite ?rev_length, ?repeat_length, ?map_length, ?seq_length; reflexivity.
 Qed.
+Lemma apply_col_length_short d : apply_col 10 d = Ok (firstn (Nat.div2 (length d)) d).
+Proof. reflexivity. Qed.
+Lemma apply_col_length_long d : apply_col 11 d = Ok (d ++ [CS s_k]).
+Proof. reflexivity. Qed.
 
 (* ------------------------------------------------------------------ *)
 (* 5. the axis argument                                                *)
@@ -522,12 +617,20 @@ Example ex_apply_col_nil : op_apply 7 ex_frame (Some [0]) = Err.
 Proof. vm_compute. reflexivity. Qed.
 Example ex_apply_axis_row : op_apply 1 ex_frame (Some [1]) = op_apply_row 1 ex_frame.
 Proof. reflexivity. Qed.
+(* the shortening function: an error row-wise; the lengthening one: the extra cell is dropped *)
+Example ex_apply_row_short : op_apply_row 10 ex_frame = Err.
+Proof. vm_compute. reflexivity. Qed.
+Example ex_apply_row_long : op_apply_row 11 ex_frame = Ok ex_frame.
+Proof. vm_compute. reflexivity. Qed.
+Example ex_apply_row_total_premises : rect ex_frame = true /\ ex_frame <> [] /\ nrows ex_frame <> 0%nat.
+Proof. repeat split; discriminate. Qed.
 
 Print Assumptions collect_schedule_independent.
 Print Assumptions collect_sequential.
 Print Assumptions C17_any_schedule.
 Print Assumptions apply_once_per_row.
 Print Assumptions apply_row_total.
+Print Assumptions apply_row_short_is_error.
 Print Assumptions C17_apply_row_any_schedule.
 Print Assumptions C17_apply_row_wf.
 Print Assumptions apply_col_spec.
